@@ -414,6 +414,29 @@ func corrProbe(r *Rng, which string) (line, got string) {
 			}
 		}
 		return sb.String(), got + " | " + valid
+	case "offraw":
+		// the raw ring that doGroupOffset appends for one closed path (before the union): Miter / Square /
+		// Bevel joins, deltas of both signs from tiny to large, miter limits, paths with duplicates,
+		// spikes and collinear runs at three magnitudes, sometimes scaled so that edges exceed 2^32
+		p := corrPath(r)
+		if len(p) == 0 {
+			p = clip.Path64{sp()}
+		}
+		k := []int64{1, 10, 10, 1000, 1 << 20, 1 << 33}[r.Intn(6)]
+		for i := range p {
+			p[i] = P{X: p[i].X*k + int64(r.Range(-1, 1)), Y: p[i].Y*k + int64(r.Range(-1, 1))}
+		}
+		jt := []clip.JoinType{clip.Miter, clip.Square, clip.Bevel}[r.Intn(3)]
+		d := []float64{0.5, -0.5, 1, 2.5, -3, 7, -10, 50, 1e-13, 1234.5}[r.Intn(10)] * float64([]int64{1, 1, k}[r.Intn(3)])
+		ml := []float64{0, 1, 2, 3, 10}[r.Intn(5)]
+		var out clip.Path64
+		got := ""
+		if f := safeCall(func() { out = clip.VOffsetPolygonRaw(p, d, jt, ml) }); f != "" {
+			got = "fault"
+		} else {
+			got = showPath(out)
+		}
+		return fmt.Sprintf("model offraw %d %d %d %s", jt, math.Float64bits(d), math.Float64bits(ml), pathStr(p)), got
 	case "contain":
 		// the containment vote of the PolyTree owner search: rings on small grids (vertices ON the
 		// other ring, shared edges, crossings), so that all three stages of the test are reached
@@ -713,7 +736,7 @@ func corrProbe(r *Rng, which string) (line, got string) {
 }
 
 var genProbes = []string{"triSign", "multiplyUInt64", "productsAreEqual", "isCollinear", "CrossProduct", "dotProduct64", "segsIntersect", "checkPrecision", "IsOdd", "ptsReallyClose", "isContributingClosed", "isContributingOpen", "getLocation", "getEdgesForPt", "isHeadingClockwise", "headingClockwise", "getAdjacentLocation", "areOpposites", "hasHorzOverlap", "hasVertOverlap", "isClockwise", "getSegmentIntersection", "getSegmentIntersectPt", "rectMethods", "getBounds", "GetBounds64", "Area64", "PerpendicDistFromLineSqr64", "PerpendicDistFromLineSqrD", "areaTriangle"}
-var modelProbes = []string{"offplan", "rectpoly", "rectline", "pipop", "scan", "lowest", "trim", "simp64", "pip", "strip", "mink", "vertex", "clean", "build", "tree", "tree", "areaop", "contain", "aelins"}
+var modelProbes = []string{"offplan", "rectpoly", "rectline", "pipop", "scan", "lowest", "trim", "simp64", "pip", "strip", "mink", "vertex", "clean", "build", "tree", "tree", "areaop", "contain", "aelins", "offraw"}
 
 func corrStage(name string, probes []string, quick, thorough int, rule string) {
 	stages[name] = func(ctx *Ctx, cnt func(q, t int) int, replay string) Result {
@@ -745,5 +768,5 @@ func corrStage(name string, probes []string, quick, thorough int, rule string) {
 func init() {
 	corrStage("gen-corr", genProbes, 60000, 3000000, "translator validation: every generated function (Gen.*) is evaluated by the Lean oracle on operand-value inputs and compared with the real function called in-process (sign only for float64 cross / dot products, bit patterns for Area64, areaTriangle, PerpendicDistFromLineSqr64 and PerpendicDistFromLineSqrD, the last on float operands up to 2^29 with segments up to 2^28 long); non-trivial = any probe with a non-empty argument list")
 	corrStage("wind-corr", []string{"windc", "windx", "windd", "windc", "windd", "windopen"}, 60000, 2500000, "correspondence of the winding-count bookkeeping model (Model.Wind) with the real setWindCountForClosedPathEdge / setWindCountForOpenPathEdge / intersectEdges (counts, hotness afterwards and output records created, for hot / cold / front / back / shared-record combinations) run on synthetic active-edge lists (verif hook): 0-5 edges left of the new edge, subject / clip / open edges, all four fill rules, counts either produced by the real insertion (consistent states) or arbitrary in -3..3; resulting counts compared exactly")
-	corrStage("models-corr", modelProbes, 171000, 4750000, "function-level correspondence of the hand models (TrimCollinear64, SimplifyPath64, PointInPolygon, StripDuplicates, minkowskiInternal, addPathsToVertexList [vertex ring, flags, local minima], cleanCollinear's removal loop and buildPath on synthetic output rings, buildTree on synthetic tables of output records with nested / disjoint rectangles, arbitrary owner links and splits lists, pointInOpPolygon, path1InsidePath2 / getCleanPath on synthetic rings and the exported Path2ContainsPath1, isValidAelOrder / insertLeftEdge on synthetic active-edge lists (0-5 residents, shared bottom points, equal x, collinear edges, joined pairs), areaOP on synthetic rings at magnitudes up to 2^40 (float bit patterns), Group.GetLowestPathInfo, insertScanline / popScanline, RectClipLinesPaths64 [whole line machine] the raw rings of RectClip64.executeInternal [polygon state machine before checkEdges], and the decision events of ClipperOffset.Execute64 [group delta, per-path dispatch, final union]): random paths of 0-8 vertices on 2-4 wide grids (forcing duplicates, collinear runs, wrap-around cases) at three magnitudes; outputs compared exactly; the clean probe is skipped when fixSelfIntersects (not modelled) would act")
+	corrStage("models-corr", modelProbes, 180000, 5000000, "function-level correspondence of the hand models (TrimCollinear64, SimplifyPath64, PointInPolygon, StripDuplicates, minkowskiInternal, addPathsToVertexList [vertex ring, flags, local minima], cleanCollinear's removal loop and buildPath on synthetic output rings, buildTree on synthetic tables of output records with nested / disjoint rectangles, arbitrary owner links and splits lists, pointInOpPolygon, path1InsidePath2 / getCleanPath on synthetic rings and the exported Path2ContainsPath1, isValidAelOrder / insertLeftEdge on synthetic active-edge lists (0-5 residents, shared bottom points, equal x, collinear edges, joined pairs), areaOP on synthetic rings at magnitudes up to 2^40 (float bit patterns), Group.GetLowestPathInfo, insertScanline / popScanline, RectClipLinesPaths64 [whole line machine] the raw rings of RectClip64.executeInternal [polygon state machine before checkEdges], the raw offset ring of one closed path [getUnitNormal, buildNormals, offsetPolygon, offsetPoint, doMiter / doSquare / doBevel and their float helpers, bit for bit, edges up to 2^35 long], and the decision events of ClipperOffset.Execute64 [group delta, per-path dispatch, final union]): random paths of 0-8 vertices on 2-4 wide grids (forcing duplicates, collinear runs, wrap-around cases) at three magnitudes; outputs compared exactly; the clean probe is skipped when fixSelfIntersects (not modelled) would act")
 }
